@@ -68,6 +68,9 @@ Apply(op, a, b, c) ==
     \* a call of another view: H(a, b) evaluates `let v1 = a * 2; total = v1 + b` in a scope of its own (the callee's
     \* let is named like a variable of the caller on purpose) and yields the record of its assigned fields
     [] op = "call"  -> Map([total |-> IntV(a.i * 2 + b.i)])
+    \* flattening: the strings of a list become the rows (name = w) of a set, whose names are collected again:
+    \* `rows flatten(.name)` is the set of the strings, in whatever order the rows were made
+    [] op = "sflat" -> Set(Range(a.e))
     \* recursive views: the recursive call sits inside an operand of !=, +, && and | respectively, so the operator is
     \* entered again while its own operands are being evaluated
     [] op = "rodd"  -> Bool(a.i % 2 = 1)                         \* Odd(n)  = if n == 0 then false else Odd(n - 1) != true
@@ -106,6 +109,7 @@ WellTyped(op, a, b, c) ==
     [] op = "tform" -> a.k \in {"list", "set"} /\ ElemKinds(a) \subseteq {"int"} /\ b.k = "int"
     [] op = "tconst" -> a.k \in {"list", "set"} /\ ElemKinds(a) \subseteq {"int"} /\ b.k = "int"
     [] op = "call" -> a.k = "int" /\ b.k = "int"
+    [] op = "sflat" -> a.k = "list" /\ a.e # <<>> /\ ElemKinds(a) \subseteq {"str"}
     [] op \in {"rodd", "rsum", "rall", "rlist"} -> a.k = "int" /\ a.i >= 0 /\ a.i <= 8
     [] op = "tset" -> a.k \in {"list", "set"} /\ ElemKinds(a) \subseteq {"int"} /\ b.k = "int"
     [] op = "mkmap" -> a.k = "int" /\ b.k = "int" /\ c.k = "int"
